@@ -24,7 +24,7 @@ NAMED = INPLACE_DUNDERS + ['__setitem__', '__delitem__', 'set_units', 'insert_de
                            'delete_deriv', 'delete_derivs', 'as_readonly', 'match_readonly', 'require_writable',
                            '_set_values_', '_set_mask_', '_new_values_', '_clear_cache']
 EXCLUDE = {'__init__', '__new__', '__setstate__', '__getstate__'}      # construction / unpickling: fresh cache
-CLASS_FILES = ['qube.py', 'scalar.py', 'boolean.py', 'vector.py', 'vector3.py', 'pair.py', 'matrix.py', 'matrix3.py',
+CLASS_FILES = ['units.py', 'qube.py', 'scalar.py', 'boolean.py', 'vector.py', 'vector3.py', 'pair.py', 'matrix.py', 'matrix3.py',
                'quaternion.py', 'polynomial.py']
 PURE_BUILTINS = {'isinstance', 'type', 'len', 'id', 'hasattr', 'getattr', 'setattr', 'delattr', 'super', 'issubclass'}
 MAX_DEPTH = 6
@@ -62,6 +62,7 @@ class Source:
         self.funcs = {}          # qual -> Func
         self.bases = {}          # class -> [base names]
         self.props = set()       # names of non-trivial @property functions (may query the cache)
+        self.can_raise = set()
         pm = os.path.join(root, 'polymath')
         for f in CLASS_FILES:
             p = os.path.join(pm, f)
@@ -71,6 +72,7 @@ class Source:
         for f in sorted(os.listdir(ed)):
             if f.endswith('.py') and f != '__init__.py':
                 self._load(os.path.join(ed, f), ext=True)
+        self.compute_can_raise()
 
     def _load(self, path, ext):
         tree = ast.parse(open(path).read(), path)
@@ -92,6 +94,50 @@ class Source:
                 q = 'Qube.' + n.name
                 if q not in self.funcs:
                     self.funcs[q] = Func(q, 'Qube', n.name, n, rel)
+
+    def compute_can_raise(self):
+        """qualified names of the polymath functions whose body can raise: an explicit `raise`, a `_raise_…` helper,
+        or a call of a function that can, followed only through PRECISE call edges: `self.m(…)`, `Class.m(…)`,
+        `super().m(…)`, constructors `Class(…)` / `Qube.X_CLASS(…)`.  Calls on other receivers (operands, NumPy) are
+        not followed (documented gap; NumPy failures of the value update itself are modelled separately)."""
+        direct, calls = {}, {}
+        for q, f in self.funcs.items():
+            d, cs = False, set()
+            s = f.selfname
+            for n in ast.walk(f.node):
+                if isinstance(n, ast.Raise):
+                    d = True
+                elif isinstance(n, ast.Call):
+                    fn = n.func
+                    name = fn.attr if isinstance(fn, ast.Attribute) else getattr(fn, 'id', None)
+                    if name is None:
+                        continue
+                    if re.match(r'_?raise_', name):
+                        d = True
+                        continue
+                    if isinstance(fn, ast.Name):
+                        if name in self.bases:
+                            cs.add(self.resolve(name, '__init__'))
+                        continue
+                    recv = fn.value
+                    if name.endswith('_CLASS'):
+                        cs.add('Qube.__init__')
+                    elif isinstance(recv, ast.Name) and recv.id == s and f.cls in self.bases:
+                        cs.add(self.resolve(f.cls, name))
+                    elif isinstance(recv, ast.Name) and recv.id in self.bases:
+                        cs.add(self.resolve(recv.id, name))
+                    elif isinstance(recv, ast.Call) and isinstance(recv.func, ast.Name) and recv.func.id == 'super':
+                        cs.add(self.resolve(f.cls, name, after=f.cls))
+            direct[q], calls[q] = d, {c for c in cs if c}
+        can = {q for q, d in direct.items() if d}
+        changed = True
+        while changed:
+            changed = False
+            for q in self.funcs:
+                if q not in can and any(c in can for c in calls[q]):
+                    can.add(q); changed = True
+        self.can_raise = can
+        return can
 
     def mro(self, cls):
         out, todo = [], [cls]
@@ -279,6 +325,7 @@ class Extractor:
         self.failures = []
         self.eventful = None
         self.memo = {}
+        self.recv = None             # receiver class under analysis (None: the defining class of each function)
         self._retain_keys = None
 
     # ---- which functions carry events (fixed point over direct events and calls on self)
@@ -348,8 +395,8 @@ class Extractor:
             return None, None
         # self.name(...)
         if isinstance(fn.value, ast.Name) and fn.value.id == s:
-            q = self.src.resolve(f.cls, fn.attr) if f.cls in self.src.bases else self.src.resolve('Qube', fn.attr)
-            # dynamic dispatch: the receiver may be a subclass; we resolve in the defining class (documented)
+            q = self.src.resolve(self.dispatch_class(f), fn.attr)
+            # dynamic dispatch: resolved for the receiver class under analysis (self.recv), see table()
             if q in self.eventful:
                 return q, n.args
             return None, None
@@ -362,10 +409,18 @@ class Extractor:
             return None, None
         # super(C, self).name(...) / super().name(...)
         if isinstance(fn.value, ast.Call) and isinstance(fn.value.func, ast.Name) and fn.value.func.id == 'super':
-            q = self.src.resolve(f.cls, fn.attr, after=f.cls)
+            q = self.src.resolve(self.dispatch_class(f), fn.attr, after=f.cls)
             if q in self.eventful:
                 return q, n.args
         return None, None
+
+    def dispatch_class(self, f):
+        """the class in whose MRO `self.m` is looked up: the receiver class under analysis when the function is
+        inherited by it, else the defining class"""
+        base = f.cls if f.cls in self.src.bases else 'Qube'
+        if self.recv is not None and base in self.src.mro(self.recv):
+            return self.recv
+        return base
 
     def expr_items(self, f, n, env, aliases, sid, out, depth, in_comp=False):
         """append the events of expression `n` (evaluation order) to `out`; returns True if the expression
@@ -441,6 +496,8 @@ class Extractor:
                 benv = self.bind(g, args, n.keywords, env)
                 out.append(('call', q, benv, sid))
                 return raises
+            # a helper whose body can raise: an exceptional exit of the mutator is possible here
+            rq = self.raising_callee(f, n)
             # any other call that receives self (as receiver or argument) may run cached queries on it
             recv = isinstance(fn, ast.Attribute) and isinstance(fn.value, ast.Name) and fn.value.id == s
             fname = fn.id if isinstance(fn, ast.Name) else None
@@ -448,6 +505,8 @@ class Extractor:
                 any(isinstance(k.value, ast.Name) and k.value.id == s for k in n.keywords)
             if recv or (passed and fname not in PURE_BUILTINS):
                 out.append(('fill',))
+            if rq is not None:
+                out.append(('mr', rq, sid))
             return raises
         if isinstance(n, ast.Attribute) and isinstance(n.value, ast.Name) and n.value.id == s \
                 and isinstance(n.ctx, ast.Load) and n.attr in self.src.props:
@@ -458,6 +517,29 @@ class Extractor:
                 if self.expr_items(f, c, env, aliases, sid, out, depth, in_comp):
                     return True
         return False
+
+    def raising_callee(self, f, n):
+        """qualified name of the callee of call `n` when it resolves PRECISELY to a polymath function that can raise"""
+        fn = n.func
+        src = self.src
+        name = fn.attr if isinstance(fn, ast.Attribute) else getattr(fn, 'id', None)
+        if name is None:
+            return None
+        q = None
+        if isinstance(fn, ast.Name):
+            if name in src.bases:
+                q = src.resolve(name, '__init__')
+        else:
+            recv = fn.value
+            if name.endswith('_CLASS'):
+                q = 'Qube.__init__'
+            elif isinstance(recv, ast.Name) and recv.id == f.selfname:
+                q = src.resolve(self.dispatch_class(f), name)
+            elif isinstance(recv, ast.Name) and recv.id in src.bases:
+                q = src.resolve(recv.id, name)
+            elif isinstance(recv, ast.Call) and isinstance(recv.func, ast.Name) and recv.func.id == 'super':
+                q = src.resolve(self.dispatch_class(f), name, after=f.cls)
+        return q if q in src.can_raise else None
 
     def is_deriv_expr(self, n, s, aliases):
         if isinstance(n, ast.Name) and n.id in aliases:
@@ -663,6 +745,7 @@ class Extractor:
                 out.append(('ev', ('raise',), sid)); return [(out, 'raise')]
             t = st.target
             if is_self_attr(t, s) and t.attr in ATTRS:
+                out.append(('mr', 'numpy.' + type(st.op).__name__, sid))     # broadcast/cast failure BEFORE the write
                 out.append(('ev', ('write', ATTRS[t.attr], 'aug'), sid))
             elif isinstance(t, ast.Name) and view_of_attr(t, s, aliases) is not None:
                 out.append(('ev', ('write', view_of_attr(t, s, aliases), 'store'), sid))
@@ -838,7 +921,7 @@ class Extractor:
 
     # ---- inlining: flat paths of a function under a binding
     def flat(self, q, benv, depth, stack=()):
-        key = (q, tuple(sorted((k, repr(v)) for k, v in benv.items())))
+        key = (self.recv, q, tuple(sorted((k, repr(v)) for k, v in benv.items())))
         if key in self.memo:
             return self.memo[key]
         if depth > MAX_DEPTH or q in stack:
@@ -860,7 +943,7 @@ class Extractor:
                         _, cq, cenv, csid = it
                         marker = ('ev', ('requireWritable',) if cq.endswith('.require_writable') else ('call', cq), csid)
                         for ci, cs in self.flat(cq, cenv, depth + 1, stack + (q,)):
-                            ci2 = [x if x[0] == 'fill' else (x[0], x[1], (csid,) + as_chain(x[2])) for x in ci]
+                            ci2 = [x if x[0] in ('fill', 'mr') else (x[0], x[1], (csid,) + as_chain(x[2])) for x in ci]
                             if cs == 'raise':
                                 nxt.append((pi + [marker] + ci2, 'raise'))
                             else:
@@ -953,7 +1036,7 @@ class Extractor:
                     self.failures.append('%s (%s:%d): %s' % (g.qual, f.file, f.node.lineno, e))
                     continue
                 # only the paths that go through the clone
-                plist = [[('mayFill',) if x[0] == 'fill' else x[1] for x in items if x[0] not in ('mark', 'assume')]
+                plist = [[to_event(x) for x in items if x[0] not in ('mark', 'assume')]
                          for items, status in paths if any(x[0] == 'ev' and x[1] == ('call', 'Qube.clone') for x in items)
                          and status == 'ret']
                 tab[g.qual] = {'file': f.file, 'line': f.node.lineno, 'end_line': f.node.end_lineno, 'paths': plist}
@@ -994,7 +1077,7 @@ class Extractor:
                     continue
                 plist = []
                 for items, status in paths:
-                    evs = [('mayFill',) if x[0] == 'fill' else x[1] for x in items if x[0] not in ('mark', 'assume')]
+                    evs = [to_event(x) for x in items if x[0] not in ('mark', 'assume')]
                     if any(e[0] in ('write', 'cacheClear', 'cacheDel', 'cacheFreeze') for e in evs) and evs not in plist:
                         plist.append(evs)
                 if plist:
@@ -1004,13 +1087,35 @@ class Extractor:
     # ---- the table
     def table(self):
         self.compute_eventful()
-        tab = {}
-        for q in sorted(self.eventful):
+        self.recv = None
+        tab = self.table_for(sorted(self.eventful), {})
+        # dynamic dispatch: for every concrete class, the mutators it inherits, analysed with `self.m()` resolved
+        # in THAT class; kept (as "<Class>/<function>") only where the result differs from the default
+        names = sorted({self.src.funcs[q].name for q in self.eventful})
+        for C in sorted(self.src.bases):
+            if 'Qube' not in self.src.mro(C) or C == 'Qube':
+                continue
+            self.recv = C
+            quals = sorted({self.src.resolve(C, nm) for nm in names} - {None})
+            sub = self.table_for([q for q in quals if q in self.eventful], {}, report=False)
+            for q, info in sub.items():
+                base = tab.get(q)
+                same = base is not None and [(p['events'], p['sig']) for p in base['paths']] == \
+                    [(p['events'], p['sig']) for p in info['paths']]
+                if not same:
+                    tab['%s/%s' % (C, q)] = info
+        self.recv = None
+        return tab
+
+    def table_for(self, quals, tab, report=True):
+        for q in quals:
             f = self.src.funcs[q]
             try:
                 paths = self.flat(q, {}, 0)
             except Unsupported as e:
-                self.failures.append('%s (%s:%d): %s' % (q, f.file, f.node.lineno, e))
+                msg = '%s (%s:%d): %s' % (q, f.file, f.node.lineno, e)
+                if msg not in self.failures:
+                    self.failures.append(msg)
                 continue
             except RecursionError:
                 self.failures.append('%s: recursion' % q)
@@ -1031,10 +1136,10 @@ class Extractor:
                         if len(evs) >= len(stmt_events.get(sid, [])):
                             stmt_events[sid] = evs
             for items, status in paths:
-                evs = [('mayFill',) if x[0] == 'fill' else x[1] for x in items if x[0] not in ('mark', 'assume')]
+                evs = [to_event(x) for x in items if x[0] not in ('mark', 'assume')]
                 sig = []
                 for x in items:
-                    if x[0] in ('fill', 'mark', 'assume') or x[1] == ('excAt',):
+                    if x[0] in ('fill', 'mark', 'assume', 'mr') or x[1] == ('excAt',):
                         continue        # the statement that raised is not a landmark: it also runs on normal paths
                     c = as_chain(x[2])
                     if not sig or sig[-1] != c:
@@ -1043,15 +1148,33 @@ class Extractor:
                 for x in items:
                     if x[0] == 'fill':
                         slots.append(len(seen))
-                    elif x[0] not in ('mark', 'assume') and x[1] != ('excAt',):
+                    elif x[0] not in ('mark', 'assume', 'mr') and x[1] != ('excAt',):
                         seen.add(as_chain(x[2]))
+                # exceptional exits: for every mayRaise item, the landmarks (deduped statement chains) seen before it,
+                # the chain of the item that follows (the statement that may have been running), the event index
+                exits, seen_l, kev = [], [], 0
+                live = [x for x in items if x[0] not in ('mark', 'assume')]
+                for j, x in enumerate(live):
+                    if x[0] == 'mr':
+                        nxt = None
+                        for y in live[j + 1:]:
+                            if y[0] == 'ev' and y[1] != ('excAt',):
+                                nxt = as_chain(y[2]); break
+                        exits.append({'k': kev, 'pre': tuple(seen_l), 'next': nxt, 'site': x[1],
+                                      'nfills': sum(1 for y in live[:j] if y[0] == 'fill')})
+                    elif x[0] == 'ev' and x[1] != ('excAt',):
+                        c = as_chain(x[2])
+                        if c not in seen_l:
+                            seen_l.append(c)
+                    kev += 1
                 segs, nested = segments(items)
                 if nested and status == 'ret' and public_name(f):
                     msg = '%s (%s:%d): a loop with events nested inside a loop body (only outermost loops are ' \
                           'proved for every number of iterations)' % (q, f.file, f.node.lineno)
                     if msg not in self.failures:
                         self.failures.append(msg)
-                plist.append({'events': evs, 'sig': tuple(sig), 'end': status, 'fill_slots': slots, 'segs': segs})
+                plist.append({'events': evs, 'sig': tuple(sig), 'end': status, 'fill_slots': slots, 'segs': segs,
+                              'exits': exits})
             public = public_name(f)
             tab[q] = {'file': f.file, 'line': f.node.lineno, 'end_line': f.node.end_lineno, 'public': public,
                       'paths': plist, 'stmt_events': stmt_events, 'stmt_map': stmt_map(f.node),
@@ -1092,6 +1215,14 @@ def query_functions(root=None):
     return out
 
 
+def to_event(x):
+    if x[0] == 'fill':
+        return ('mayFill',)
+    if x[0] == 'mr':
+        return ('mayRaise', x[1])
+    return x[1]
+
+
 def public_name(f):
     return not (f.name.startswith('_') and not f.name.startswith('__')) and f.name != 'require_writable'
 
@@ -1104,7 +1235,7 @@ def segments(items):
     nested = False
 
     def ev(x):
-        return ('mayFill',) if x[0] == 'fill' else x[1]
+        return to_event(x)
     for x in items:
         if x[0] == 'assume':
             continue
@@ -1154,31 +1285,45 @@ def as_chain(sid):
 
 
 def dedupe(paths):
-    """distinct paths; two paths that differ only in `mayFill` points are merged (union of the points: a
-    `mayFill` with no observed query is a no-op, and the policy check is monotone in them)"""
+    """distinct paths; two paths that differ only in `mayFill` / `mayRaise` points are merged (union of the points,
+    per gap between the other items: a `mayFill` with no observed query is a no-op, an extra possible exit only makes
+    the exit check stricter, and the policy check is monotone in both)"""
     order, gaps = [], {}
     for items, s in paths:
-        core, g, n = [], set(), 0
+        core, g, n = [], {}, 0
         for it in items:
             if it[0] == 'fill':
-                g.add(n)
+                g.setdefault(n, []).append(('fill',))
+            elif it[0] == 'mr':
+                g.setdefault(n, []).append(('mr', it[1]))
             else:
                 core.append(it); n += 1
         k = (repr(core), s)
         if k not in gaps:
-            gaps[k] = (core, set())
+            gaps[k] = (core, {})
             order.append(k)
-        gaps[k][1].update(g)
+        for pos, aux in g.items():
+            lst = gaps[k][1].setdefault(pos, [])
+            for a in aux:
+                if a not in lst:
+                    lst.append(a)
     out = []
     for k in order:
         core, g = gaps[k]
         items = []
-        for j, it in enumerate(core):
-            if j in g:
+
+        def emit(pos):
+            aux = g.get(pos, [])
+            # possible exits first, then the fill: both orders happen, the exit check does not depend on fills
+            for a in aux:
+                if a[0] == 'mr':
+                    items.append(('mr', a[1], None))
+            if ('fill',) in aux:
                 items.append(('fill',))
+        for j, it in enumerate(core):
+            emit(j)
             items.append(it)
-        if len(core) in g:
-            items.append(('fill',))
+        emit(len(core))
         out.append((items, k[1]))
     return out
 
@@ -1202,6 +1347,8 @@ def lean_event(e):
         return '.assumeVarr %s' % ('true' if e[1] else 'false')
     if k == 'call':
         return '.call "%s"' % e[1]
+    if k == 'mayRaise':
+        return '.mayRaise "%s"' % e[1]
     if k == 'raise':
         return '.raise_'
     return '.' + k
